@@ -390,6 +390,10 @@ class _DataFiles:
                         result.append(pickle.load(input_file))
                 except EOFError:
                     pass
+                except Exception:
+                    # a truncated or corrupt data file (e.g. an interrupted
+                    # save) is treated as missing
+                    return None
                 if len(result) == 1:
                     return result[0]
                 if len(result) > 1:
